@@ -13,8 +13,8 @@ CLAIMED = {
     text="Theorem C03_never_crashes: for every configuration, every nesting budget and EVERY finite history of events (any header field any integer, any declared length, any name bytes, EOF/reset/truncation anywhere, any service order, any writable sets, any set of simultaneous write failures, any number of connections) the model of MessageManager.run() never raises - the only non-Ok outcome is exhaustion of the model's explicit nesting budget - and every reachable state satisfies the registry/identity invariants. Every partial operation of manager.py (recv_into sizes, ctypes array indexing, ascii decoding, writes to closed sockets, set/dict mutation during iteration, del of a missing key, dynamic-id exhaustion) is an explicit Crash in the model, so the theorem is about exactly those. Tied to the code by regenerated guards and by differential execution incl. malformed and fault streams; 8 crash defects of the pinned tree were found this way and repaired (fix: commits).",
     note=MGR_NOTE, technique="Coq proof of totality + invariant (Hoare logic with in-flight-removal set, frame relation) + correspondence + fault/malformed-input enumeration", design="6/C03"),
  "C05": dict(
-    text="Theorems (stage 1): the only write path stamps the connection's own counter+1 into the header it writes and writes header then payload consecutively; sendall only appends; manager-originated headers declare the size of the payload kind they carry; acks are whole zero-payload frames. Stream-level statements (counts 1..n per connection, whole frames, same relative order on all receivers) are decided for every generated history by differential execution against the model and by an independent oracle on the byte streams.",
-    note=MGR_NOTE, technique="Coq lemmas on the write primitive + correspondence + stream oracle", design="6/C05"),
+    text="Theorems for ALL histories (any events, faults, schedules, fuel): C05_stream_frames - everything the manager has written to a connection is a concatenation of whole frames (header then its payload, nothing in between) whose stamped sequence numbers are exactly 1..n, optionally followed by ONE lone header numbered n+1 on a connection that is dead (payload sendall failed); acknowledgements, failure notices, periodic messages and forwarded messages share the one counter; C05_append_only / C05_per_connection_order / C05_service_appends - the global write log only grows, so each connection's stream is a projection of one total order (same relative order at every receiver, sender order preserved). Declared payload sizes are proved at call-site level (C05_forward_sized, C05_failed_notice_sized, C05_ack_is_whole_frame) and compared byte-for-byte by the correspondence. Tied to manager.py by the translator and by differential execution of scripted histories.",
+    note=MGR_NOTE, technique="Coq invariant proof over every reachable state of an executable state machine (generic out-invariant traversal of all manager operations) + correspondence by vm_compute + stream oracle", design="6/C05"),
  "C06": dict(
     text="Theorems for ALL histories: C06_unique (no two live modules share an id unless both non-unique, in every reachable state), C06_connect (a connection request leaves every other module's identity untouched; the requester ends unregistered, or with an id in range and clash-free), C06_dynamic_fresh (dynamic ids are fresh and in range from every cursor position, give-up only when all 100 are taken), generated user-id range. The options half (Client.connect / client_context) is decided by driving the real client against a scripted peer over every option vector (found and fixed: client_context passed allow_multiple as daemon).",
     note=MGR_NOTE, technique="Coq invariant proof + correspondence + option-plumbing probe", design="6/C06"),
@@ -59,6 +59,14 @@ CLAIMED = {
     text="Coq theorem C17_holds over the two-thread small-step model of DataCollection/DataSet (model of the code after fix 510a13f): for EVERY recorder program, EVERY schedule and every number of steps, written ++ pending ++ rbuf = selected arrivals, no loss/duplication/reordering, files finalised after stop; format theorems for raw/json/quicklogger incl. reader models. The hand-off shape is translated fail-closed from data_collection.py; tied by running the real classes under a cooperative scheduler on complete schedule trees of small programs and random larger ones, files read back with the package's readers.",
     note="Trusted: Coq kernel, gen_logger.py, the cooperative scheduler (switch points = Event operations and buffer operations); termination/fairness not proved; atomicity at switch-point granularity. No axioms.",
     technique="Coq inductive invariant over an interleaved small-step relation + correspondence under a deterministic scheduler", design="6/C17"),
+ "C12": dict(
+    text="Coq theorems over the executable model of Parser.parse/parse_file/handle_* (Model/Registry.v; guards, namespaces and section order regenerated from parser.py) for ANY finite import graph (cycles, diamonds, any depth) and any file contents: every reachable file is entered exactly once (C12_trace_visits_reachable_once, fuel never exhausted); completeness - a successful parse implies the whole closure is conflict-free and in range (C12_complete and its per-namespace corollaries: message ids incl. every expanded reserved id, shared name namespace, host/module names and values, range guards); soundness - a conflict-free, in-range, well-named closure is accepted and the first error is at the first offending declaration (C12_sound, C12_no_false_conflict, C12_first_conflict). Tied to parser.py by the guards translator and by parsing generated closures with the real Parser (error class compared).",
+    note="Trusted: Coq kernel, vlib/translate/guards_defs.py (fail-closed), the closure generator/harness (real Parser on generated YAML trees; error kind mapped to a small enum), PyYAML/ruamel behaviour for the generated subset. Hand-modelled: the handler skeletons (validated by correspondence). No axioms.",
+    technique="Coq proof (induction over handler traces and over the import graph with a visited list) + translated guards + correspondence by vm_compute", design="6/C12"),
+ "C13": dict(
+    text="Coq theorems over the model of the hashed text (Model/HashText.v: the raw builders of handle_message_def/handle_signal/handle_struct, dedent) and an executable SHA-256 (Lib/Sha256.v, checked on standard vectors): the text depends only on kind, name, id and the ordered (field, type-text) list (C13_depends_only); on well-formed definitions the text determines the definition, so every edit incl. reordering and signal/message/struct changes the text (C13_injective, C13_every_edit_changes_text, C13_reordering_changes_text); the literals emitted by the four back ends denote the same number first32(sha256 text) (C13_same_everywhere). NOT provable by any technique: distinct texts have distinct 32-bit digests (collision assumption, named). That Client.send_message/send_signal stamp the hash and the manager forwards it unchanged is checked structurally (ast) and on captured frames, not a theorem.",
+    note="Trusted: Coq kernel, guards translator, the harness comparing model text/digest with parser.py's raw/hash and with the compiled Python/C/JS/Matlab outputs; SHA-256 collision resistance for the final 'different definition => different version' step. No axioms.",
+    technique="Coq proof (string injectivity lemmas, executable SHA-256 by vm_compute) + correspondence on generated definitions + ast/frames probe for the stamping sites", design="6/C13"),
 }
 NOT_YET = {}
 ALL = ["C%02d" % i for i in range(1, 20)]
